@@ -41,6 +41,19 @@ func (c *ctx) walkerCompleteness() {
 				if fl, ok := a.(*ast.FuncLit); ok {
 					walker = fl
 				}
+				// a visitor kept in a local variable (it continues the walk with itself)
+				if id, ok := a.(*ast.Ident); ok && walker == nil {
+					obj := astx.ObjOf(info, id)
+					astx.Writes(fd.Body, func(l ast.Expr, at ast.Node) {
+						if astx.IdentObj(info, l) == obj {
+							if as, ok := at.(*ast.AssignStmt); ok && len(as.Rhs) == 1 {
+								if fl, ok := as.Rhs[0].(*ast.FuncLit); ok {
+									walker = fl
+								}
+							}
+						}
+					})
+				}
 			}
 		}
 		return walker == nil
